@@ -256,7 +256,7 @@ def run(rep):
                 "boundary integers, doubles, empty maps/lists; every format json/jsonl/json-pretty/yaml/yml/toml through the library; each "
                 "output is re-read by bkl itself and by an independent parser (json, libyaml with a YAML 1.2 core schema, tomllib), numbers "
                 "compared by exact value; plus format selection through -f / -o extension / virtual input extension in all combinations; "
-                "every case is non-trivial")
+                "-o over an existing longer / garbage file; numbers compared by exact value AND kind; every case is non-trivial")
     rep.proof, rep.broken = proof_step(PID)
     rng = random.Random(rep.seed)
     known_sigs = {k["signature"]: k for k in load_known().get("open", []) if k.get("property") == PID}
